@@ -18,7 +18,8 @@ EXTENDS Naturals, Sequences, FiniteSets, TLC, Json
 
 Kinds == {"lam", "formals_default", "formals_body", "set", "list", "paren", "call", "with", "assert", "let_value", "let_body",
           "if_then", "if_else", "binary", "select_default", "update",
-          "with_ml", "formals_body_ml", "lam_ml", "inherit_src", "call_tight", "list_ml", "set_ml", "let_body_ml", "paren_ml"}
+          "with_ml", "formals_body_ml", "lam_ml", "inherit_src", "call_tight", "list_ml", "set_ml", "let_body_ml", "paren_ml",
+          "impl_ml", "update_ml", "concat_ml", "plus_ml", "and_ml"}
 \* how a frame of each kind wraps an expression E (text templates: prefix, suffix); the harness only concatenates
 Frame == [ lam |-> <<"x: ", "">>, formals_default |-> <<"{ a ? ", " }: a">>, formals_body |-> <<"{ a }: ", "">>,
            set |-> <<"{ a = ", "; }">>, list |-> <<"[ (", ") ]">>, paren |-> <<"(", ")">>, call |-> <<"f (", ")">>,
@@ -29,7 +30,10 @@ Frame == [ lam |-> <<"x: ", "">>, formals_default |-> <<"{ a ? ", " }: a">>, for
            with_ml |-> <<"with p;\n", "">>, formals_body_ml |-> <<"{ a }:\n", "">>, lam_ml |-> <<"x:\n", "">>,
            inherit_src |-> <<"{ inherit (", ") x; }">>, call_tight |-> <<"f(", ")">>,
            list_ml |-> <<"[\n(", ")\n]">>, set_ml |-> <<"{\na = ", ";\n}">>, let_body_ml |-> <<"let\na = 1;\nin\n", "">>,
-           paren_ml |-> <<"(\n", "\n)">> ]
+           paren_ml |-> <<"(\n", "\n)">>,
+           \* operator chains without parentheses, broken behind the operator (right- and left-associative ones)
+           impl_ml |-> <<"a ->\n", "">>, update_ml |-> <<"{ } //\n", "">>, concat_ml |-> <<"[ ] ++\n", "">>,
+           plus_ml |-> <<"1 +\n", "">>, and_ml |-> <<"a &&\n", "">> ]
 
 Poly(c1, c2) == c2 <= 8 * c1 + 64
 
